@@ -9,8 +9,14 @@
   everything else is one step) is tried; a round is explained if some interleaving yields
   the observed results and a model view that prints exactly like the observed
   snapshot. Outcomes the code leaves to the scheduler (which siblings of a failed
-  launch had reported TASK_RUNNING, whether a teardown lost the rendezvous race)
-  are read off the observation and fed to the model as oracles.
+  launch had reported TASK_RUNNING) are read off the observation and fed to the
+  model as oracles.
+
+  The model replayed is the code as it is (`Own.codeCfg`, the default of `Own.init`):
+  it cannot crash at a complete claim, its teardown names the hook tasks of all
+  weights, and the oracle of the rendezvous race (`late`, still passed when a call was
+  seen to hang) has no say in it — a crashed core or a call that does not return is
+  therefore never explained.
 -/
 import ControlModel.Spec.C04
 import ControlModel.Spec.C06
